@@ -61,6 +61,8 @@ Record ostep := mkOstep {
   os_vs : vs; os_cf : faults; os_df : faults;
   os_clog : list action; os_cres : result; os_cstore : smap cert;      (* store after the step *)
   os_dlog : list action; os_dres : result; os_dstore : smap dnsep;
+  os_nox : bool;                         (* delivery family, a write of this step failed: the worker loop retried with whatever the
+                                            watch had delivered by then; only the specification is judged, on the final cluster *)
   os_cpre : option (smap cert);          (* the cluster before the step, when somebody else changed it since the last step *)
   os_dpre : option (smap dnsep);
   os_ccache : option (smap cert);        (* the lister caches before the step, when they differ from the cluster *)
@@ -82,6 +84,7 @@ Definition singleton {A} (name : A -> string) (o : option A) : smap A :=
 
 (* X: the model reproduces log, error class and store of both controllers, and the first-time objects *)
 Definition x_step (cs : cmpset) (prec : smap cert) (pred : smap dnsep) (s : ostep) : bool :=
+  os_nox s ||
   let ccache := match os_ccache s with Some c => c | None => prec end in
   let dcache := match os_dcache s with Some d => d | None => pred end in
   let '(c', cl, cr) := sync_cert2 cs (ord_of (os_clog s)) (os_vs s) (os_cf s) ccache prec in
